@@ -239,6 +239,8 @@ def run_job(spec):
             signal.setitimer(signal.ITIMER_REAL, 0)
         for m in monitors:
             m(ctx)
+        if ctx.extra.get('dbg') and len(res.setdefault('dbg', [])) < 5:
+            res['dbg'].append(ctx.extra['dbg'][:2])
         for k, v in ctx.reached.items():
             res['reach'][k] = res['reach'].get(k, 0) + v
         # one query per key
